@@ -236,7 +236,6 @@ func c11Sem(r *h.Rng, res *h.Result, n int, maxSel int, replay *tqReplay) error 
 	var ops, realOps, tieOps, tieImpl []string
 	var cases, tieCases []any
 	var feats []string
-	featOverride := ""
 	add := func(query string, c tqctx, rows []tqAttrRow) bool {
 		sel, text, script, err := implTraceSel(query, c)
 		if err != nil || script == nil {
@@ -266,11 +265,7 @@ func c11Sem(r *h.Rng, res *h.Result, n int, maxSel int, replay *tqReplay) error 
 		realOps = append(realOps, realOp)
 		ops = append(ops, "c11eval "+c.ser()+" "+ser+" "+serDb(rows))
 		cases = append(cases, tqReplay{Query: query, Ctx: c, Db: rows})
-		if featOverride != "" {
-			feats = append(feats, featOverride)
-		} else {
-			feats = append(feats, scriptFeature(script))
-		}
+		feats = append(feats, scriptFeature(script))
 		tieOps = append(tieOps, "c11plan "+c.ser()+" "+ser)
 		tieImpl = append(tieImpl, h.Hex([]byte(texts[0])))
 		tieCases = append(tieCases, map[string]any{"query": query, "ctx": c})
@@ -292,18 +287,26 @@ func c11Sem(r *h.Rng, res *h.Result, n int, maxSel int, replay *tqReplay) error 
 		}
 	}
 	if replay == nil {
-		// more conditions in one selector than the bit set has bits: the 65th and later ones can never hold
-		var parts []string
-		for i := 0; i < 66; i++ {
-			parts = append(parts, fmt.Sprintf(".k%d = %d", i, i))
+		// more distinct conditions in one selector than the bit set has bits: the planner must refuse the query (the 65th
+		// and later conditions could never hold); 64 are planned
+		for _, k := range []int{64, 65, 66, 70} {
+			var parts []string
+			for i := 0; i < k; i++ {
+				parts = append(parts, fmt.Sprintf(".k%d = %d", i, i))
+			}
+			query := "{" + strings.Join(parts, h.Pick(r, []string{" || ", " && "})) + "}"
+			_, _, script, err := implTraceSel(query, genTqCtx(r))
+			switch {
+			case script == nil:
+				res.Count("sem:over-64:parse-error")
+			case k <= 64 && err != nil:
+				res.Violate("C11/64-conditions-refused", fmt.Sprintf("a selector with %d distinct conditions is refused: %v", k, err), map[string]any{"kind": "guard", "query": query})
+			case k > 64 && err == nil:
+				res.Violate("C11/over-64-conditions-accepted", fmt.Sprintf("a selector with %d distinct conditions is planned although the condition bit set has 64 bits: conditions 65.. can never hold", k), map[string]any{"kind": "guard", "query": query})
+			default:
+				res.Count(fmt.Sprintf("sem:over-64:%d-conditions-ok", k))
+			}
 		}
-		c := genTqCtx(r)
-		c.RndMax, c.RndI, c.Cached = 0, 0, nil
-		ts := c.From
-		date := time.Unix(0, ts).UTC().Format("2006-01-02")
-		featOverride = "over-64-conditions"
-		add("{"+strings.Join(parts, " || ")+"}", c, []tqAttrRow{{Date: date, Key: "k65", Val: "65", Trace: "t0", Span: "s0", Ts: ts, Dur: 1}})
-		featOverride = ""
 	}
 	if err := res.Compare("sem-text", tieOps, tieImpl, tieCases); err != nil {
 		return err
